@@ -195,7 +195,15 @@ func cmdRun(args []string) {
 	if ln, ok := e.(interface{ leanName() string }); ok {
 		leanName = ln.leanName()
 	}
+	// the payload being run is left in <obs>.cur: if the process dies (a Go fatal error cannot be recovered) the
+	// orchestrator re-runs that case alone
+	curPath := *obsPath + ".cur"
+	cur, _ := os.Create(curPath)
 	for _, p := range payloads {
+		if cur != nil {
+			cur.Truncate(0)
+			cur.WriteAt([]byte(p), 0)
+		}
 		extra := ""
 		o := safeRun(func() string {
 			if hasExtra {
@@ -224,6 +232,10 @@ func cmdRun(args []string) {
 	ow.Flush()
 	req.Close()
 	obs.Close()
+	if cur != nil {
+		cur.Close()
+		os.Remove(curPath)
+	}
 	keys := make([]string, 0, len(classes))
 	for k := range classes {
 		keys = append(keys, k)
